@@ -18,25 +18,11 @@ Definition tchar_ranges : list (N * N) :=
    (48,57); (65,90); (97,122)].
 Definition fchar_ranges : list (N * N) := [(9,9); (32,126); (128,255)].
 
-Lemma byte_table (f g : N -> bool) :
-  forallb (fun x => Bool.eqb (f x) (g x)) alphabet = true -> forall x, x < 256 -> f x = g x.
-Proof.
-  intros H x Hx. rewrite forallb_forall in H. apply eqb_prop. apply H. apply alphabet_complete. exact Hx.
-Qed.
-
 Lemma tchar_ranges_ok x : x < 256 -> in_ranges x tchar_ranges = is_tchar x.
 Proof. apply (byte_table (fun x => in_ranges x tchar_ranges) is_tchar). vm_compute. reflexivity. Qed.
 
 Lemma fchar_ranges_ok x : x < 256 -> in_ranges x fchar_ranges = is_field_char x.
 Proof. apply (byte_table (fun x => in_ranges x fchar_ranges) is_field_char). vm_compute. reflexivity. Qed.
-
-Lemma forallb_ext_in {A} (f g : A -> bool) l : (forall x, In x l -> f x = g x) -> forallb f l = forallb g l.
-Proof.
-  induction l as [|x l IH]; simpl; auto. intro H. rewrite H, IH; auto.
-Qed.
-
-Lemma bytes_ok_app a b : bytes_ok (a ++ b) <-> bytes_ok a /\ bytes_ok b.
-Proof. unfold bytes_ok. apply Forall_app. Qed.
 
 (* ---------------------------------------------------------------- *)
 (* field-line = token ":" *( SP / HTAB / field-vchar ), as a language *)
@@ -130,16 +116,9 @@ Proof.
   assert (Hx2 : (x =? 13) || (x =? 10) = false).
   { destruct ((x =? 13) || (x =? 10)) eqn:E; auto.
     rewrite <- Hc. symmetry. apply existsb_exists. exists x. auto. }
-  apply orb_false_iff in Hx2 as [A B]. apply N.eqb_neq in A, B.
-  simpl.
-  destruct (x <=? 9) eqn:E1; [reflexivity|].
-  destruct ((11 <=? x) && (x <=? 12)) eqn:E2; [rewrite !orb_true_r; reflexivity|].
-  assert (14 <= x <= 255).
-  { apply N.leb_gt in E1. apply andb_false_iff in E2.
-    destruct E2 as [E2|E2]; apply N.leb_gt in E2; lia. }
-  replace (14 <=? x) with true by (symmetry; apply N.leb_le; lia).
-  replace (x <=? 255) with true by (symmetry; apply N.leb_le; lia).
-  rewrite !orb_true_r. reflexivity.
+  rewrite (byte_table (fun x => in_ranges x [(0,9); (11,12); (14,255)])
+                      (fun x => negb ((x =? 13) || (x =? 10)))) by (vm_compute; reflexivity || exact Ho).
+  rewrite Hx2. reflexivity.
 Qed.
 
 Lemma gate_header_field_ref l : line_ok l ->
@@ -233,19 +212,24 @@ Proof.
     rewrite header_key_norm, strip_sp_htab. change lookup with hget.
     destruct (hget h (norm_name pre)) as [old|] eqn:E.
     + rewrite is_singleton_key. destruct (is_single_key (norm_name pre)); cbn [andb]; [reflexivity|].
-      rewrite hset_combine_some by exact E. reflexivity.
+      rewrite <- (hset_combine_some _ _ _ _ E). reflexivity.
     + rewrite andb_false_r. rewrite hset_combine_none by exact E. reflexivity.
 Qed.
 
 (* ---------------------------------------------------------------- *)
 (* folding of obs-fold lines *)
 
+Lemma memb_existsb c l : memb c l = existsb (fun x => x =? c) l.
+Proof.
+  unfold memb. induction l as [|x l IH]; cbn [existsb]; auto.
+  rewrite IH, (N.eqb_sym c x). reflexivity.
+Qed.
+
 Lemma has_cr_or_lf_ref l : has_cr_or_lf l = has_crlf_byte l.
 Proof.
-  unfold has_cr_or_lf, has_crlf_byte, memb.
-  induction l as [|x l IH]; simpl; auto. rewrite <- IH.
-  rewrite (N.eqb_sym 13 x), (N.eqb_sym 10 x).
-  destruct (x =? 13), (x =? 10), (existsb (N.eqb 13) l), (existsb (N.eqb 10) l); reflexivity.
+  unfold has_cr_or_lf, has_crlf_byte. rewrite !memb_existsb.
+  induction l as [|x l IH]; cbn [existsb]; auto. rewrite <- IH.
+  destruct (x =? 13), (x =? 10), (existsb (fun y => y =? 13) l), (existsb (fun y => y =? 10) l); reflexivity.
 Qed.
 
 Lemma unfold_go_some : forall ls p r, Forall (fun l => l <> []) ls ->
@@ -255,7 +239,7 @@ Lemma unfold_go_some : forall ls p r, Forall (fun l => l <> []) ls ->
   end.
 Proof.
   induction ls as [|l ls IH]; intros p r Hne; cbn [unfold_lines header_lines_go].
-  - simpl. rewrite <- app_assoc. reflexivity.
+  - reflexivity.
   - inversion Hne as [|? ? Hl Hls]; subst.
     destruct l as [|c l']; [congruence|].
     rewrite has_cr_or_lf_ref.
@@ -263,9 +247,9 @@ Proof.
     change (is_ows c) with ((c =? 32) || (c =? 9)).
     destruct ((c =? 32) || (c =? 9)).
     + apply IH. exact Hls.
-    + specialize (IH (c :: l') (p :: r) Hls).
-      destruct (unfold_lines ls (Some (c :: l'))); auto.
-      rewrite IH. simpl. rewrite <- app_assoc. reflexivity.
+    + specialize (IH (c :: l') (p :: r) Hls). revert IH.
+      destruct (unfold_lines ls (@Some bytes (c :: l'))); auto.
+      intro IH. rewrite IH. simpl. rewrite <- app_assoc. reflexivity.
 Qed.
 
 Lemma unfold_go : forall ls, Forall (fun l => l <> []) ls ->
@@ -281,8 +265,8 @@ Proof.
   destruct (has_crlf_byte (c :: l')); [eexists; split; reflexivity|].
   change (is_ows c) with ((c =? 32) || (c =? 9)).
   destruct ((c =? 32) || (c =? 9)); [eexists; split; reflexivity|].
-  pose proof (unfold_go_some ls (c :: l') [] Hls) as G.
-  destruct (unfold_lines ls (Some (c :: l'))); auto.
+  pose proof (unfold_go_some ls (c :: l') [] Hls) as G. revert G.
+  destruct (unfold_lines ls (@Some bytes (c :: l'))); auto.
 Qed.
 
 Lemma has_crlf_app a b : has_crlf_byte (a ++ b) = has_crlf_byte a || has_crlf_byte b.
@@ -308,9 +292,10 @@ Proof.
     destruct (is_ows c).
     + destruct pending as [p|]; try discriminate.
       apply IH; auto. intros q E. injection E as <-. apply line_ok_app; auto.
-    + destruct (unfold_lines ls (Some (c :: l'))) as [out'|] eqn:E; try discriminate.
+    + destruct (unfold_lines ls (@Some bytes (c :: l'))) as [out'|] eqn:E; try discriminate.
       intro E2. injection E2 as <-.
-      assert (Forall line_ok out') by (eapply IH; eauto; intros q Eq; injection Eq as <-; auto).
+      assert (Forall line_ok out').
+      { apply (IH (@Some bytes (c :: l')) out' Hls); [intros q Eq; injection Eq as <-; exact Hlo | exact E]. }
       destruct pending; auto.
 Qed.
 
